@@ -162,11 +162,11 @@ class Ctx:
                 v = self.decisions[self.pos]['cand']
             else:
                 v = self._min_value(t)
-            if self.fork_bool(t == ival(v), cand=v):
+            if self.fork_bool(t == _const_like(t, v), cand=v):
                 return v
 
     def _val(self, v):
-        return v.as_long() if BVW is None else v.as_signed_long()
+        return v.as_signed_long() if z3.is_bv_value(v) else v.as_long()
 
     def _min_value(self, t):
         r = self.check()
@@ -174,7 +174,7 @@ class Ctx:
             raise Abort('index: ' + r, inconclusive=(r == 'unknown'))
         hi = self._val(self.solver.model().eval(t, model_completion=True))
         while True:
-            r = self.check(t < ival(hi))
+            r = self.check(t < _const_like(t, hi))
             if r == 'unknown':
                 raise Abort('index: unknown')
             if r == 'unsat':
@@ -198,6 +198,10 @@ def run_path(fn, decisions, timeout_ms=10000, index_cap=64, setup=None):
     ctx.stats.paths += 1
     GLOBAL.paths += 1
     return ctx, res
+
+
+def _const_like(t, v):
+    return z3.BitVecVal(int(v), t.size()) if z3.is_bv(t) else z3.IntVal(int(v))
 
 
 def explore(fn, timeout_ms=10000, maxpaths=100000, index_cap=64, setup=None):
@@ -559,12 +563,7 @@ def _floor_term(t):
     if EAGER_FLOOR:
         # n-way split right away: every use of a floor in pygyro is an index; a concrete value keeps all later
         # terms polynomial (k = m would otherwise have to be eliminated by the solver in every query)
-        saved = BVW
-        try:
-            set_bv(None)
-            return ctx.fork_index(k)
-        finally:
-            set_bv(saved)
+        return ctx.fork_index(k)
     return SInt(k)
 
 
